@@ -5,6 +5,7 @@ import SmppVerif.Model.Keeper
 import SmppVerif.Model.Supervisor
 import SmppVerif.Model.Receiver
 import SmppVerif.Model.Sender
+import SmppVerif.Model.SenderLoop
 import SmppVerif.Model.Discipline
 import SmppVerif.Model.DriverPdu
 
@@ -68,6 +69,20 @@ def step (ws : List String) : Option String :=
         | .failed ps e => "failed " ++ (if ps.isEmpty then "-" else ";".intercalate (ps.map showHex)) ++ " " ++ e.name
             ++ (if Sender.survives (.failed ps e) then " continues" else " ends"))
     | _, _, _, _ => some "bad-op"
+  | "txq" :: dflt :: smin :: smax :: scur :: rcur :: rest =>
+    -- the whole queue: messages separated by "|", each "submit <fields>"
+    let groups := (rest.splitBy (fun a b => a ≠ "|" ∧ b ≠ "|")).filter (· ≠ ["|"])
+    let msgs := groups.mapM (fun g => match g with
+      | "submit" :: f => DriverPdu.parseSm f
+      | _ => none)
+    match DriverPdu.parseEnc dflt, smin.toNat?, smax.toNat?, scur.toNat?, rcur.toInt?, msgs with
+    | some d, some smin, some smax, some scur, some rcur, some ms =>
+      let gs : SenderLoop.Gens := ⟨⟨smin, smax, scur⟩, ⟨if rcur < 0 then none else some rcur.toNat⟩⟩
+      some (" / ".intercalate ((SenderLoop.loop d gs ms).map fun r => match r with
+        | .sent ps => "sent " ++ (if ps.isEmpty then "-" else ";".intercalate (ps.map showHex))
+        | .failed ps e => "failed " ++ (if ps.isEmpty then "-" else ";".intercalate (ps.map showHex)) ++ " " ++ e.name
+            ++ (if Sender.survives (.failed ps e) then " continues" else " ends")))
+    | _, _, _, _, _, _ => some "bad-op"
   | ["rx", dflt, hex] =>
     match DriverPdu.parseEnc dflt, parseHex hex with
     | some d, some b =>
